@@ -61,6 +61,19 @@ add("C11", "exploration",
     "The race detector sees only executed access pairs. UTXO records are Go-heap allocated in this harness (the mmap allocator has no shadow memory; it is covered by C20).",
     "DESIGN.md §3 C11")
 
+add("C03", "exploration",
+    "differential runtime monitor: library ECDSA / BIP340 / tweak predicates and signers vs an independent big.Int secp256k1 reference (refec) on valid triples, exhaustive single-bit mutations, range/encoding edge sets and algebraically crafted inputs",
+    "Held on the inputs observed: ~33k judged (key, signature, message) triples per quick run in 14 generator families (valid, every single-bit mutation of some, r/s in {0,1,n-1,n,n+k,p,2^256-1}, 33-byte integers, compressed/uncompressed/hybrid keys, coordinates >= p, x without square root, off-curve points, "
+    "forgeries built with the library's own arithmetic, BIP340 edge cases, taproot tweak cases) plus ~2k signer cases (RFC6979 and BIP340 outputs equal the reference, random-nonce signatures verify, low-S, canonical DER, recovery returns the key).",
+    "Oracle = /verif/ref/refec, calibrated on the BIP340 CSV vectors, RFC6979 vectors and known multiples of G at start-up. DER inputs whose integer value is ambiguous are executed but not judged.",
+    "DESIGN.md §3 C03")
+add("C08", "exploration",
+    "differential runtime monitor: field operation sequences with tracked magnitudes, group operations and scalar multiplications vs big.Int reference, on amd64 (5x52) and GOARCH=386 (10x26); exhaustive check of all precomputed table entries",
+    "Held on the operations observed: hundreds of thousands of contract-respecting field-operation sequences with raw-limb edge values on both field representations, tens of thousands of group operations incl. identity / P+P / P+(-P) / non-normalised operands, "
+    "scalar multiplication entry points on edge scalars and a 160k consecutive-key sweep; every entry of pre_g, pre_g_128, prec and fin equals the multiple of G it stands for (exhaustive: true).",
+    "Oracle = /verif/ref/refec (big.Int). Raw limbs and tables are reached through lib/secp256k1/export_verif.go (build tag verif). The 10x26 magnitude contract is taken as limbs <= m*(2^26-1).",
+    "DESIGN.md §3 C08")
+
 NOT_BUILT = {}
 
 def main():
